@@ -52,6 +52,36 @@ pub fn kinds() -> Vec<(&'static str, bool, String)> {
             "let a = import! std.array.prim\nrec let f n xs = if n #Int== 0 then a.len xs else f (n #Int- 1) (a.append xs xs)\nf 40 [1, 2, 3, 4, 5, 6, 7, 8]\n"
                 .to_string(),
         ),
+        // panics of primitive functions, caught in `unpack_and_call` since /repo 27c589a (they aborted before)
+        ("caught-int-shl", true, "let i = import! std.int.prim\n1 #Int+ i.shl 1 100\n".to_string()),
+        (
+            "caught-string-slice",
+            true,
+            "let s = import! std.string.prim\nlet f x = s.append (s.slice \"abc\" 2 1) x\nf \"z\"\n".to_string(),
+        ),
+        (
+            "caught-array-arg",
+            true,
+            "let i = import! std.int.prim\nlet a = import! std.array.prim\nrec let f n xs = if n #Int== 0 then i.rem (0 #Int- 9223372036854775807 #Int- 1) (0 #Int- 1) else 1 #Int+ f (n #Int- 1) (a.append xs [n])\nf 20 [0]\n"
+                .to_string(),
+        ),
+        (
+            "caught-st-string",
+            true,
+            "let b = import! std.effect.st.string.prim\nlet x = b.new ()\nlet _ = b.push_str x \"abc\"\nb.slice x 2 1\n".to_string(),
+        ),
+        // the host calls a Gluon function (`Function::call`, vm/src/api/function.rs:445 `call_first`); `#call` = the
+        // program evaluates to a function Int -> Int which is then called with 200
+        (
+            "host-call-ok",
+            false,
+            "#call\nrec let f n = if n #Int== 0 then 0 else 1 #Int+ f (n #Int- 1)\nf\n".to_string(),
+        ),
+        (
+            "host-call-err",
+            true,
+            "#call\nlet p = import! std.prim\nrec let f n = if n #Int== 0 then p.error \"boom\" else 1 #Int+ f (n #Int- 1)\nf\n".to_string(),
+        ),
         ("type-error", true, "1 #Int+ \"a\"\n".to_string()),
         ("parse-error", true, "let x = in\n".to_string()),
     ]
@@ -65,7 +95,7 @@ fn new_vm() -> RootedThread {
         db.run_io(true);
     }
     // load the modules the programs import, so that every VM starts from the same state
-    for m in ["std.prim", "std.array.prim", "std.string.prim"] {
+    for m in ["std.prim", "std.array.prim", "std.string.prim", "std.int.prim", "std.effect.st.string.prim"] {
         let _ = vm.run_expr::<OpaqueValue<&Thread, Hole>>("warm", &format!("let _ = import! {}\n()", m));
     }
     vm.context().set_max_stack_size(MAX_STACK);
@@ -76,6 +106,9 @@ fn new_vm() -> RootedThread {
 }
 
 fn eval(vm: &Thread, src: &str) -> String {
+    if let Some(fsrc) = src.strip_prefix("#call\n") {
+        return eval_call(vm, fsrc);
+    }
     let r = gv::catch(|| match vm.run_expr::<OpaqueValue<&Thread, Hole>>("h", src) {
         Ok((v, _)) => format!("ok:{}", render(v.get_variant(), 0)),
         Err(e) => {
@@ -99,16 +132,42 @@ fn eval(vm: &Thread, src: &str) -> String {
     r.unwrap_or_else(|p| format!("panic:{}", p.lines().next().unwrap_or("")))
 }
 
+fn eval_call(vm: &Thread, src: &str) -> String {
+    use gluon::vm::api::FunctionRef;
+    let r = gv::catch(|| {
+        let f = vm.run_expr::<FunctionRef<fn(i64) -> i64>>("h", src);
+        match f {
+            Err(e) => format!("{}:load {}", error_class(&e), e.to_string().lines().next().unwrap_or("")),
+            Ok((mut f, _)) => match f.call(200) {
+                Ok(v) => format!("ok:(i {})", v),
+                Err(e) => {
+                    let msg = e.to_string();
+                    format!("err:{}", msg.lines().next().unwrap_or("").chars().take(60).collect::<String>())
+                }
+            },
+        }
+    });
+    r.unwrap_or_else(|p| format!("panic:{}", p.lines().next().unwrap_or("")))
+}
+
 /// (frames, values, allocated bytes) of the thread at rest
 fn measure(vm: &Thread) -> (usize, usize, usize) {
-    let (fr, vals) = {
-        let mut ctx = vm.context();
-        let fl = ctx.frame_level();
-        let sf = ctx.stack_frame::<State>();
-        let v = sf.len() as usize + sf.frame().offset as usize;
-        (fl, v)
-    };
-    (fr, vals, vm.allocated_memory())
+    // a VM whose context mutex was poisoned by a panic inside gluon cannot be inspected any more: 999_999
+    gv::catch(|| {
+        let (fr, vals) = {
+            let mut ctx = vm.context();
+            let fl = ctx.frame_level();
+            let sf = ctx.stack_frame::<State>();
+            let v = sf.len() as usize + sf.frame().offset as usize;
+            (fl, v)
+        };
+        (fr, vals, vm.allocated_memory())
+    })
+    .unwrap_or((999_999, 999_999, 0))
+}
+
+fn collect(vm: &Thread) {
+    let _ = gv::catch(|| vm.collect());
 }
 
 /// `--child hist`: stdin = `seed tier`; prints the observations.
@@ -123,22 +182,24 @@ pub fn child_main() {
     let ks = kinds();
     // 1. leak probes: the same failing program five times on one VM, collecting after every run
     let mut leak = vec![0usize; ks.len()];
+    let mut leakf = vec![0usize; ks.len()];
     if replay.is_none() {
         for (ki, (name, fails, src)) in ks.iter().enumerate() {
             let vm = new_vm();
             let (f0, v0, _) = measure(&vm);
             let r1 = eval(&vm, src);
-            vm.collect();
+            collect(&vm);
             let (f1, v1, m1) = measure(&vm);
             let mut last = (f1, v1, m1);
             let mut same = true;
             for _ in 0..4 {
                 let r = eval(&vm, src);
                 same &= r == r1;
-                vm.collect();
+                collect(&vm);
                 last = measure(&vm);
             }
-            leak[ki] = v1 - v0;
+            leak[ki] = v1.saturating_sub(v0);
+            leakf[ki] = f1.saturating_sub(f0);
             println!(
                 "L\t{}\t{}\t{}\t{}\t{}\t{}\t{}\t{}\t{}\t{}",
                 name, fails, f0, v0, f1, v1, last.1, m1, last.2, if same { r1 } else { format!("UNSTABLE {}", r1) }
@@ -147,10 +208,12 @@ pub fn child_main() {
     } else {
         for (ki, (_, _, src)) in ks.iter().enumerate() {
             let vm = new_vm();
-            let (_, v0, _) = measure(&vm);
+            let (f0, v0, _) = measure(&vm);
             let _ = eval(&vm, src);
-            vm.collect();
-            leak[ki] = measure(&vm).1 - v0;
+            collect(&vm);
+            let (f1, v1, _) = measure(&vm);
+            leak[ki] = v1.saturating_sub(v0);
+            leakf[ki] = f1.saturating_sub(f0);
         }
     }
     // 2. histories
@@ -184,7 +247,7 @@ pub fn child_main() {
             let (name, fails, src) = &ks[*ki];
             let got = eval(&vm, src);
             if *fails {
-                vm.collect();
+                collect(&vm);
             }
             let fresh = new_vm();
             let want = eval(&fresh, src);
@@ -192,12 +255,14 @@ pub fn child_main() {
                 diffs.push(format!("{}@{}: long-lived `{}` fresh `{}`", name, pos, got, want));
             }
         }
-        vm.collect();
+        collect(&vm);
         let (f1, v1, _) = measure(&vm);
         let steps: Vec<String> = h
             .iter()
             .map(|ki| {
-                if ks[*ki].1 {
+                if ks[*ki].0 == "host-call-err" {
+                    format!("(hostfail {} {})", leakf[*ki], leak[*ki])
+                } else if ks[*ki].1 {
                     format!("(fail 1 {})", leak[*ki])
                 } else {
                     "(ok 1 0)".to_string()
@@ -299,9 +364,20 @@ fn digest(out: &mut Out, text: &str, status: &str) {
             }
             let req = format!("hist real ({})", f[2]);
             let payload = format!("(frames {} values {})", f[3], f[4]);
-            if names.iter().any(|n| *n == "stack-overflow" || *n == "oom") {
-                // what these leave depends on how full the stack / heap already is: outside the model's fragment
-                out.count("skipped-correspondence:history-with-overflow-or-oom");
+            // after a failed host call the thread is corrupt: only "one failed host call, no host call after it,
+            // VM still inspectable" is inside the model's fragment
+            let hpos = names.iter().position(|n| *n == "host-call-err");
+            let host_outside = match hpos {
+                None => false,
+                // (a later *successful* evaluation returns through the stale frames and consumes them — with wrong
+                // intermediate results, which the oracle reports — so only failing top-level steps may follow)
+                Some(p) => {
+                    names[p + 1..].iter().any(|n| n.starts_with("host-call") || n.starts_with("ok-"))
+                        || f[3].parse::<i64>().unwrap_or(0) > 900_000
+                }
+            };
+            if host_outside {
+                out.count("skipped-correspondence:history-after-failed-host-call");
             } else {
                 if out.n_cases % 17 == 0 {
                     out.sample(serde_json::json!({"request": req, "impl": payload, "history": names}));
@@ -319,7 +395,9 @@ fn digest(out: &mut Out, text: &str, status: &str) {
                     .unwrap_or(0);
                 // closed set of culprits: what the earlier failed runs left behind
                 let before: Vec<&str> = hist[..pos].iter().filter(|k| ks[**k].1).map(|k| ks[*k].0).collect();
-                let culprit = if before.contains(&"stack-overflow") {
+                let culprit = if before.contains(&"host-call-err") {
+                    "host-call-err"
+                } else if before.contains(&"stack-overflow") {
                     "stack-overflow"
                 } else if before.contains(&"oom") {
                     "oom"
